@@ -209,15 +209,11 @@ fn case_strategy(tier: Tier) -> BoxedStrategy<CacheCase> {
         prop::collection::vec(op, 0..=max_ops),
         // bit 5: event listeners registered
         prop_oneof![2 => 0u8..32, 1 => 32u8..64],
+        // a hot key: a run of 250-300 immediate requests for one key, spliced in at a position
+        prop_oneof![30 => Just(None), 1 => (0usize..40, 0u32..7, 250u32..=300).prop_map(Some)],
     )
-        .prop_map(|(policy, max_size, ttl, mode, nkeys, ops, setter_order)| CacheCase {
-            policy,
-            max_size,
-            ttl,
-            mode,
-            setter_order,
-            stress: None,
-            ops: ops
+        .prop_map(|(policy, max_size, ttl, mode, nkeys, ops, setter_order, hot)| {
+            let mut ops: Vec<COp> = ops
                 .into_iter()
                 .map(|o| match o {
                     COp::Get { key, ok, lat, via } => COp::Get {
@@ -228,7 +224,28 @@ fn case_strategy(tier: Tier) -> BoxedStrategy<CacheCase> {
                     },
                     o => o,
                 })
-                .collect(),
+                .collect();
+            // a hot key only without a TTL in the way (the run takes no virtual time anyway) and
+            // with room for other keys next to it
+            if let (Some((pos, key, n)), true) = (hot, max_size >= 2) {
+                let at = pos.min(ops.len());
+                let run = (0..n).map(|_| COp::Get {
+                    key: key % nkeys,
+                    ok: true,
+                    lat: 0,
+                    via: 0,
+                });
+                ops.splice(at..at, run);
+            }
+            CacheCase {
+                policy,
+                max_size,
+                ttl,
+                mode,
+                setter_order,
+                stress: None,
+                ops,
+            }
         })
         .boxed()
 }
@@ -701,6 +718,9 @@ async fn interp(case: &CacheCase) -> Verdict {
         }
     }
     let mut m = vec![];
+    if case.ops.len() > 240 {
+        m.push("hot_key_run_of_250_or_more_requests");
+    }
     if case.setter_order & 32 != 0 {
         m.push("event_listeners_registered");
     }
